@@ -329,7 +329,8 @@ func (p *nriPlugin) StopPodSandbox(ctx context.Context, podSandbox *api.PodSandb
 
 	m := p.resmgr
 
-	// TODO(klihub): shouldn't we m.Lock()/defer m.Unlock() here?
+	m.Lock()
+	defer m.Unlock()
 	b := metrics.Block()
 	defer b.Done()
 
